@@ -44,6 +44,9 @@ CLAIMED["C07"] = ("generated-input validity checking over histories: every built
 CLAIMED["C15"] = ("model-based property testing: exhaustive (shape x limit x depth-around-threshold) enumeration against a frame-count model, and proptest-generated tick workloads with statically known tick counts against budget/cancellation models",
     "Exploration, exhaustive around every configured call-depth limit for 11 recursion shapes (unfrozen and frozen): success iff frames <= limit, StackOverflow otherwise, never a crash, evaluator reusable. Tick budgets and cancellation are checked against an exact count model with the documented 1000-tick check interval.",
     "Frame constants calibrated on the unchanged tree; tick model excludes native-callback and known-method calls (documented as not counted).", "DESIGN.md §5 C15")
+CLAIMED["C14"] = ("differential testing of the implementation against itself across fresh processes with different memory layouts (ASLR on/off, allocation noise, environment size, evaluating thread, per-process hash seeds) and repeated in-process runs; byte-equality oracle on the full observable output incl. errors, lint and static-typecheck output",
+    "Exploration: batches of generated programs (with determinism probes and failing statements that produce suggestions and call stacks) must produce byte-identical observations in four differently laid-out processes and on repetition.",
+    "Layout differences are induced, not enumerated; a dependence that needs a specific address pattern can stay hidden.", "DESIGN.md §5 C14")
 NOT_YET = {}
 
 def main():
